@@ -402,7 +402,13 @@ func (s *Scheduler) run(emitter Emitter, freq time.Duration) {
 			nextEl *list.Element
 			next   *ScheduledJob
 		)
-		if ready.Len() > 0 {
+		if ready.Len() > 0 && ongoing < s.concurrency {
+			// Dispatch only while fewer than `concurrency` jobs are
+			// outstanding. A worker that has posted its result is
+			// free to receive again before we have read that result
+			// from donec; without this bound more than `concurrency`
+			// results can be outstanding, overflowing donec and
+			// leaving workers blocked on it forever once we exit.
 			nextEl = ready.Front()
 			next = nextEl.Value.(*ScheduledJob)
 		} else {
